@@ -171,7 +171,7 @@ class Gen:
             e = r.choice(self.enums)
             return T("enum", name=e["qname"], scoped=e["scoped"])
         if x < 0.9 and getattr(self, "strings", True):
-            return T("string", ref=for_param and r.random() < 0.6)
+            return T("string", ref=(for_param or getattr(self, "ext", False)) and r.random() < 0.6)
         if x < 0.95 and for_param and getattr(self, "strings", True):
             return T("cstr")
         return T("int", c="int")
@@ -504,6 +504,11 @@ class Gen:
         # nested enum
         if r.random() < 0.4 * self.size:
             cls["enums"].append(self.gen_enum(owner=cls, indent=ind)["qname"])
+        if getattr(self, "ext", False) and r.random() < 0.3:
+            # an anonymous enum published in the class (raw: its enumerators are class-scope constants)
+            n3 = r.randrange(10000)
+            self.h.append(f"{ind}enum {{ anon_a{n3}, anon_b{n3} = 6, anon_c{n3} }};")
+            cls["raw_anon_enum"] = n3
         # nested class (up to two levels), emitted inline in the published section
         if getattr(self, "ext", False) and cls["depth"] < 2 and r.random() < (0.45 if cls["depth"] == 0 else 0.5):
             sv_size = self.size
